@@ -41,7 +41,7 @@ TEXT.update({
             "level_text": "Exploration with reallocation (grow and shrink, explicit and automatic) at high frequency, constant hasher included, caches from empty to thousands of entries under ASan."},
     "C08": {"technique": "runtime monitor: differential check of heap_size/value_size/mem_size and the four bulk helpers against an independently stated composition law over a generated type matrix; totality by subprocess exit status at opt-level 0",
             "design_ref": "DESIGN.md section 5 C08", "level_note": "Trusted base: the harness' own statement of the laws (memsize.rs `Spec`), rustc. Mutex/RwLock poisoning and re-entrant locking are outside C08's quantifier and not explored.",
-            "level_text": "Exploration over generated values of 115 concrete nestings; element counts up to 10^7 for the totality clause (restating 'however many elements' as a bound)."},
+            "level_text": "Exploration over generated values of 345 concrete nestings; element counts up to 10^7 for the totality clause (restating 'however many elements' as a bound)."},
     "C09": {"technique": "runtime monitor: counting global allocator with attribution scopes as ground truth for owned buffers",
             "design_ref": "DESIGN.md section 5 C09", "level_note": "Trusted base: the harness' global allocator wrapper (Layout::size() of every alloc/realloc/dealloc made while the value is built), std's allocation behaviour on this target (Mutex/RwLock allocate nothing on Linux).",
             "level_text": "Exploration: every relation between length and capacity at every nesting level reached by random build plans; equality is exact, so a single missed byte of spare capacity is reported."},
